@@ -181,6 +181,8 @@ MUTANTS = [
 TWINS = [
     ('C01', 'invalidate-before-write', (R, MANAGER, "        self.components.add(component)\n        self.root._queue.drainFrom(component._queue)\n        self.root._cache_needs_refresh = True",
                                         "        self.root._cache_needs_refresh = True\n        self.components.add(component)\n        self.root._queue.drainFrom(component._queue)"), None),
+    ('C01', 'invalidate-through-alias', (R, MANAGER, "        self.components.remove(component)\n        self.root._cache_needs_refresh = True",
+                                         "        self.components.remove(component)\n        root = self.root\n        root._cache_needs_refresh = True"), None),
     ('C01', 'clear-by-rebinding', (R, MANAGER, "            self._cache.clear()\n", "            self._cache = {}\n"), None),
     ('C02', 'lambda-sort-key', (R, MANAGER, "                key=attrgetter('priority'),\n                reverse=True,\n", "                key=lambda h: -h.priority,\n"), None),
     ('C02', 'stopped-early-continue', (R, MANAGER, "            if event.stopped:\n                break  # Stop further event processing\n", "            if not event.stopped:\n                continue\n            break\n"), None),
